@@ -153,7 +153,7 @@ def decode_cases(items, rng, configs=None, mode="stdin"):
         for W, env in cfgs:
             env = dict(env)
             if len(it.data) < 4000 and "VERIF_IN_GRANUL" not in env and rng.random() < 0.5:
-                env["VERIF_IN_GRANUL"] = rng.choice([32, 64, 256])
+                env["VERIF_IN_GRANUL"] = rng.choice([4, 8, 32, 64, 256])
             c = sched.Case("%s|d W=%d %s" % (it.label, W, env), ["-d", "-n", str(W)], it.data, env, kind="expand",
                            timeout=60, mode=mode)
             c.item = it
